@@ -1,19 +1,22 @@
 #!/bin/sh
 # usage: tools/recheck-seeded.sh [id-prefix]
-# Re-runs, with the machinery as it is now, the registered quick check of every change kept
-# under /verif/seeded against a scratch worktree of /repo with that change applied, and
-# writes /verif/seeded/RECHECK.md. A change archived before a later "fix:" commit touched
-# the same lines is applied with --3way; one that no longer applies is reported as such.
+# Re-runs, with the machinery as it is now, the check(s) that reported each change kept
+# under /verif/seeded against a scratch worktree of /repo with that change applied. One row
+# per change is kept in /verif/seeded/.recheck-rows/<id> (an existing row is not redone, so
+# several instances with different prefixes can share the work); when run without a prefix
+# the rows are assembled into /verif/seeded/RECHECK.md at the end. Remove the rows
+# directory to start over.
 export GOFLAGS=-mod=mod GOPROXY=off GOSUMDB=off GOTOOLCHAIN=local
-OUT=/verif/seeded/RECHECK.md
-[ -n "${1:-}" ] && OUT=/tmp/RECHECK-$1.md   # a partial run never replaces the full table
-TMP=$(mktemp /tmp/recheck-XXXXXX)
+ROWS=/verif/seeded/.recheck-rows
+mkdir -p $ROWS
 for d in /verif/seeded/${1:-}*/; do
   id=$(basename "$d"); [ -f "$d/meta.json" ] || continue
+  [ -f "$ROWS/$id" ] && continue
+  : > "$ROWS/$id"
   P=$(python3 -c "import json;print(json.load(open('$d/meta.json'))['property'])")
   checks=$(python3 -c "import json;m=json.load(open('$d/meta.json'));print(' '.join(sorted({t['check'] for t in m['trials'] if t.get('exit')==1 and t.get('check')}) or [m['property']]))")
   WT=$(mktemp -d /tmp/recheck-wt-XXXXXX)
-  git -C /repo worktree add -q --detach "$WT" HEAD || { echo "| $id | $P | worktree failed |" >> $TMP; continue; }
+  git -C /repo worktree add -q --detach "$WT" HEAD || { echo "| $id | $P | worktree failed |" > "$ROWS/$id"; continue; }
   if (cd "$WT" && git apply "$d/patch.diff" 2>/dev/null || git apply --3way "$d/patch.diff" 2>/dev/null) && (cd "$WT" && go build ./... 2>/dev/null); then
     res=""
     for Q in $checks; do
@@ -21,12 +24,14 @@ for d in /verif/seeded/${1:-}*/; do
       cls=$(grep -m1 'class:' "$WT/zz.log" | sed 's/.*class: //' | cut -c1-60)
       res="$res $Q:exit$rc($cls)"
     done
-    echo "| $id | $P |$res |" >> $TMP
+    echo "| $id | $P |$res |" > "$ROWS/$id"
   else
-    echo "| $id | $P | patch no longer applies to the current tree (superseded by a later fix) |" >> $TMP
+    echo "| $id | $P | patch no longer applies to the current tree (superseded by a later fix) |" > "$ROWS/$id"
   fi
   git -C /repo worktree remove --force "$WT" 2>/dev/null; rm -rf "$WT"
 done
-{ echo "# Re-check of the seeded changes with the current machinery ($(date -u +%Y-%m-%dT%H:%MZ), /repo $(git -C /repo log --format=%h -n1), /verif $(git -C /verif log --format=%h -n1))"; echo; echo "| id | property | check: exit code (first verdict class) |"; echo "|---|---|---|"; cat $TMP; } > $OUT
-rm -f $TMP
-grep -c 'exit1' $OUT
+if [ -z "${1:-}" ]; then
+  OUT=/verif/seeded/RECHECK.md
+  { echo "# Re-check of the seeded changes with the current machinery ($(date -u +%Y-%m-%dT%H:%MZ), /repo $(git -C /repo log --format=%h -n1), /verif $(git -C /verif log --format=%h -n1))"; echo; echo "| id | property | check: exit code (first verdict class) |"; echo "|---|---|---|"; cat $ROWS/*; } > $OUT
+  grep -c 'exit1' $OUT
+fi
